@@ -226,6 +226,19 @@ def x_own(report):
     else:
         raise Unrecognised("own.SqliteIndex._load_sketch", "neither the plain nor the freezing shape (or the two sites differ)")
     report["outputs"]["own.sqlite_hands_out_mutable"] = sqlite_mutable
+    # SqliteIndex.find on a query that is empty (after downsampling): either shape is a legitimate source, the model follows it
+    fnd = _fn(SQ, "find")
+    if not _contains(fnd, "xx = self._get_matching_sketches(c1, query_mh.hashes, query_mh._max_hash)"):
+        raise Unrecognised("own.SqliteIndex.find", "the call of _get_matching_sketches is not of the recorded shape")
+    early = _contains(fnd, "if self.scaled > query_mh.scaled:\n    query_mh = query_mh.downsample(scaled=self.scaled)\n"
+                           "if not query_mh:\n    return")
+    gms = _fn(SQ, "_get_matching_sketches")
+    if not _contains(gms, "max_hash = min(max_hash, max(hashes))"):
+        raise Unrecognised("own.SqliteIndex._get_matching_sketches", "max(hashes) is not of the recorded shape")
+    sqlite_refuses_empty = not early
+    report["outputs"]["own.sqlite_find_refuses_empty_query"] = sqlite_refuses_empty
+    # the lookup is materialised before any result is yielded (C15.4): a half-consumed search holds no cursor
+    facts["ownSqliteFindMaterialises"] = _only_returns(gms, "c.fetchall()")
     report["inputs"]["own"] = "AST shapes of signature.py (SourmashSignature / FrozenSourmashSignature), search.py " \
         "(GatherDatabases.__init__), index/__init__.py (counter_gather, CounterGather, LinearIndex, LazyLinearIndex, " \
         "ZipFileLinearIndex, MultiIndex, StandaloneManifestIndex), manifest.py, sbt.py / lca_db.py select; " \
@@ -236,6 +249,8 @@ def x_own(report):
         lines.append(f"def {k} : Bool := {str(bool(facts[k])).lower()}")
     lines.append("/-- `SqliteIndex._load_sketch` / `_load_sketches` return a plain (mutable) SourmashSignature (finding C15.3) -/")
     lines.append(f"def ownSqliteHandsOutMutable : Bool := {str(sqlite_mutable).lower()}")
+    lines.append("/-- `SqliteIndex.find` raises ValueError (`max()` of no hashes) for an empty query instead of returning nothing (C06.2) -/")
+    lines.append(f"def ownSqliteFindRefusesEmptyQuery : Bool := {str(sqlite_refuses_empty).lower()}")
     lines.append("def ownFacts : List (String × Bool) := [" +
                  ", ".join(f'("{k}", {k})' for k in sorted(facts)) + "]")
     return "\n".join(lines) + "\n"
